@@ -1,4 +1,5 @@
-import Proofs.C17.PowNext
+import Proofs.C17.PowRound
+import Proofs.C17.Merkle
 /-!
 # C17 — block commitments: merkle roots, proofs, filters, compact blocks and targets
 
@@ -44,6 +45,15 @@ theorem bits_from_target_eq_core (t : Bytes) :
   by_cases h : t.length > 32
   · simp only [h, if_true]; exact bits_from_target_bad t h
   · simp only [h, if_false]; exact bits_from_target_core t (by omega)
+
+/-- decode ∘ encode never rounds a target up: for every target of at most 32 bytes the compact form
+    is accepted back (no overflow, never negative), denotes a target `≤` the original, and the loss is
+    less than one unit of the last kept byte, `256^(exponent-3)` (so: exact when the exponent is ≤ 3). -/
+theorem target_roundtrip_never_rounds_up (t : Bytes) (ht : t.length ≤ 32) :
+    ∃ b t', Gen.Pow.bits_from_target t = .ok b ∧ Gen.Pow.target_from_bits b = .ok t' ∧
+      Gen.Pow.is_negative_bits b = .ok false ∧ b.length = 4 ∧ t'.length = 32 ∧
+      ofBE t' ≤ ofBE t ∧ ofBE t < ofBE t' + 256 ^ ((b.headD 0).toNat - 3) :=
+  roundtrip_bytes t ht
 
 /-! ## T8 — retarget and work -/
 
@@ -94,6 +104,80 @@ theorem block_work_eq_core (b : Bytes) (hb4 : b.length = 4) :
         omega
       · simp [h0]
   · simp
+
+/-! ## T1–T3 — merkle trees, for every node hash `h` (for bytes: `h a b = H (a ++ b)`, any `H`) -/
+
+section Merkle
+open Btc.Merkle
+variable {α : Type} [DecidableEq α]
+
+/-- T1 (completeness): for every non-empty leaf list and every index, the branch of leaf `i` recomputes
+    the root — or the verifier refuses it as mutated (right child equal to its sibling), and then the
+    builder's `mutated` flag is raised: the refusal happens only on CVE-2012-2459 trees. -/
+theorem merkle_branch_complete (h : α → α → α) (l : List α) (i : Nat) (x r : α) (m : Bool)
+    (hx : l[i]? = some x) (hr : rootAndMutated h l = some (r, m)) :
+    rootFromBranch h x (branch h l i) i = .ok r ∨
+      (rootFromBranch h x (branch h l i) i = .error .mutated ∧ m = true) :=
+  branch_complete h l i x r m hx hr
+
+/-- a root exists exactly for non-empty lists (`"empty merkle tree"` otherwise) -/
+theorem merkle_root_exists_iff (h : α → α → α) (l : List α) :
+    (∃ r m, rootAndMutated h l = some (r, m)) ↔ l ≠ [] :=
+  rootAndMutated_some_iff h l
+
+/-- T2 (soundness by reduction): two (leaf, branch) pairs of the same depth verifying at the same index
+    to the same root are equal — or two distinct pairs of nodes with the same hash are exhibited. -/
+theorem merkle_branch_sound (h : α → α → α) (br br' : List α) (x y r : α) (i : Nat)
+    (hl : br.length = br'.length)
+    (h1 : rootFromBranch h x br i = .ok r) (h2 : rootFromBranch h y br' i = .ok r) :
+    (x = y ∧ br = br') ∨ ∃ a b c d, (a, b) ≠ (c, d) ∧ h a b = h c d :=
+  branch_sound h br br' x y r i hl h1 h2
+
+/-- T2 against the tree: what verifies at index `i` of an unmutated tree with a branch of the honest
+    depth is the leaf at `i`, or a collision is exhibited. -/
+theorem merkle_proves_only_its_leaf (h : α → α → α) (l : List α) (i : Nat) (x y r : α) (br' : List α)
+    (hx : l[i]? = some x) (hr : rootAndMutated h l = some (r, false))
+    (hl : br'.length = (branch h l i).length) (hv : rootFromBranch h y br' i = .ok r) :
+    y = x ∨ ∃ a b c d, (a, b) ≠ (c, d) ∧ h a b = h c d :=
+  branch_sound_tree h l i x y r br' hx hr hl hv
+
+/-- leftover index bits are refused -/
+theorem merkle_index_fits_depth (h : α → α → α) (br : List α) (x r : α) (i : Nat)
+    (hv : rootFromBranch h x br i = .ok r) : i < 2 ^ br.length :=
+  rootFromBranch_index_bound h br x r i hv
+
+/-- T3: `mutated` is raised iff some level the loop visits holds an equal pair at an even position. -/
+theorem merkle_mutated_iff (h : α → α → α) (l : List α) (r : α) (m : Bool)
+    (hr : rootAndMutated h l = some (r, m)) :
+    m = true ↔ ∃ lvl ∈ levels h l.length l, ∃ k x, lvl[2 * k]? = some x ∧ lvl[2 * k + 1]? = some x := by
+  rw [mutated_iff_levels h l.length l (Nat.le_refl _) r m hr]
+  constructor
+  · rintro ⟨lvl, hm, hl⟩; exact ⟨lvl, hm, (levelMutated_iff lvl).mp hl⟩
+  · rintro ⟨lvl, hm, hl⟩; exact ⟨lvl, hm, (levelMutated_iff lvl).mpr hl⟩
+
+/-- T3 (CVE-2012-2459): repeating the last node of an odd level (≥ 3 nodes) keeps the root and raises the flag. -/
+theorem merkle_dup_tail (h : α → α → α) (pre : List α) (z : α) (hp : pre.length % 2 = 0) (h2 : 2 ≤ pre.length) :
+    rootAndMutated h (pre ++ [z, z]) = (rootAndMutated h (pre ++ [z])).map (fun p => (p.1, true)) :=
+  dup_tail h pre z hp h2
+
+/-- the byte-level verifier (`merkle_root_from_branch` with its 32-byte width checks) is the abstract one
+    on well-sized input, for any hash `H`. -/
+theorem merkle_bytes_verifier (H : Bytes → Bytes) (leaf : Bytes) (br : List Bytes) (index : Int)
+    (hi : 0 ≤ index) (hl : leaf.length = 32) (hall : ∀ s ∈ br, s.length = 32) :
+    rootFromBranchBytes H leaf br index = rootFromBranch (fun a b => H (a ++ b)) leaf br index.toNat :=
+  rootFromBranchBytes_eq H leaf br index hi hl hall
+
+-- non-vacuity on a three-leaf tree over a toy hash
+example : rootAndMutated (fun a b : Nat => 10 * a + b) [1, 2, 3] = some (153, false) := by
+  simp [rootAndMutated, rootLoop, nextLevel, levelMutated]
+example : branch (fun a b : Nat => 10 * a + b) [1, 2, 3] 2 = [3, 12] := by
+  simp [branch, nextLevel, sibling, sibIdx]
+example : rootFromBranch (fun a b : Nat => 10 * a + b) 3 [3, 12] 2 = .ok 153 := by decide
+example : rootAndMutated (fun a b : Nat => 10 * a + b) [1, 2, 3, 3] = some (153, true) := by
+  simp [rootAndMutated, rootLoop, nextLevel, levelMutated]
+example : rootFromBranch (fun a b : Nat => 10 * a + b) 3 [3, 12] 3 = .error .mutated := by decide
+
+end Merkle
 
 -- non-vacuity: mainnet genesis bits, a sign-bit case, an overflow, a wrap-free retarget
 example : Gen.Pow.target_from_bits [0x1d, 0x00, 0xff, 0xff] =
